@@ -36,6 +36,9 @@ type acase struct {
 	Limit     int64  `json:"limit"`      // readLimit (MaxBufferSize); ignored on the client path
 	HeaderHex string `json:"header_hex"` // the stream is this header followed by the 4 bytes "4abc"
 	Declared  uint64 `json:"declared"`   // the length the header declares
+	// Full: the whole declared payload follows the header (a sender that really sends what it announces); the
+	// limit must bound what the reader allocates all the same
+	Full bool `json:"full_payload,omitempty"`
 }
 
 func (a acase) String() string {
@@ -47,7 +50,11 @@ func (a acase) String() string {
 	if a.Path == "client" {
 		lim = "no limit"
 	}
-	return fmt.Sprintf("%s reader, %s, %s frame header %s (declares %d bytes) + 4 payload bytes", a.Path, lim, kind, a.HeaderHex, a.Declared)
+	tail := "4 payload bytes"
+	if a.Full {
+		tail = "the whole declared payload"
+	}
+	return fmt.Sprintf("%s reader, %s, %s frame header %s (declares %d bytes) + %s", a.Path, lim, kind, a.HeaderHex, a.Declared, tail)
 }
 
 func allocCases() []acase {
@@ -74,7 +81,7 @@ func allocCases() []acase {
 			for _, d := range []uint64{l + 1, 65535} {
 				if d <= 65535 && !seen[d] {
 					seen[d] = true
-					cs = append(cs, acase{"server", limit, hdr(16, bin, d), d})
+					cs = append(cs, acase{"server", limit, hdr(16, bin, d), d, false})
 				}
 			}
 			seen = map[uint64]bool{}
@@ -85,15 +92,22 @@ func allocCases() []acase {
 			} {
 				if !seen[d] {
 					seen[d] = true
-					cs = append(cs, acase{"server", limit, hdr(64, bin, d), d})
+					cs = append(cs, acase{"server", limit, hdr(64, bin, d), d, false})
 				}
+			}
+			// the announced payload really follows: far beyond limit + slack, in both extended forms
+			if l+allocSlack < 65535 {
+				cs = append(cs, acase{"server", limit, hdr(16, bin, 65535), 65535, true})
+			}
+			for _, d := range []uint64{l + 4*allocSlack, 1 << 24} {
+				cs = append(cs, acase{"server", limit, hdr(64, bin, d), d, true})
 			}
 		}
 	}
 	// without a configured limit only "no panic" applies
 	for _, bin := range []bool{false, true} {
 		for _, d := range []uint64{1 << 47, 1 << 62, 1<<63 - 1, 1 << 63, 1<<64 - 1} {
-			cs = append(cs, acase{"client", 0, hdr(64, bin, d), d})
+			cs = append(cs, acase{"client", 0, hdr(64, bin, d), d, false})
 		}
 	}
 	return cs
@@ -111,6 +125,13 @@ func measure(a acase) (res aresult) {
 		return aresult{Err: "bad header hex"}
 	}
 	stream := append(hdr, '4', 'a', 'b', 'c')
+	if a.Full {
+		if a.Declared > 1<<26 {
+			return aresult{Err: "full payload too large for the harness"}
+		}
+		stream = append(hdr, bytes.Repeat([]byte("a"), int(a.Declared))...)
+		stream[len(hdr)] = '4'
+	}
 	rd := bytes.NewReader(stream)
 	next := func() (*parser.Packet, error) { return wt.VerifClientNextPacket(rd) }
 	if a.Path != "client" {
@@ -133,7 +154,7 @@ func allocWorkerMain() {
 	in := bufio.NewScanner(os.Stdin)
 	in.Buffer(make([]byte, 1<<16), 1<<20)
 	out := bufio.NewWriter(os.Stdout)
-	measure(acase{"server", 1000, "0534616263", 5}) // warm-up: one-time allocations of the call path
+	measure(acase{"server", 1000, "0534616263", 5, false}) // warm-up: one-time allocations of the call path
 	out.WriteString("READY\n")
 	out.Flush()
 	for in.Scan() {
